@@ -38,16 +38,19 @@ def mkcfg(kind, plan, rs=4, xf=False, unreg="stop"):
             "unreg": unreg if kind == "p2p" else "stop"}
 
 
-def exhaustive_histories(depth):
+def exhaustive_histories(depth, full):
     """start followed by every sequence of depth-1 further calls (for FileBodyProducer also every sequence of depth-1 calls
     not beginning with start), for a few plans per kind; identical event logs are merged afterwards"""
     import itertools
-    plans = {"fbp": [[], [3], [9, 2], [2, 0]], "fs": [[], [3], [9, 2], [2, 0]], "fsd": [[], [3], [2, 0, 4]],
-             "p2p": [[0], [1, 0]]}
+    if full:
+        plans = {"fbp": [[], [3], [9, 2], [2, 0]], "fs": [[], [3], [9, 2], [2, 0]], "fsd": [[], [3], [2, 0, 4]],
+                 "p2p": [[0], [1, 0]]}
+    else:
+        plans = {"fbp": [[], [9, 2], [2, 0]], "fs": [[], [9, 2], [2, 0]], "fsd": [[3], [2, 0, 4]], "p2p": [[1, 0]]}
     for kind, pls in plans.items():
         for plan in pls:
             for unreg in (("stop", "raise", "forget") if kind == "p2p" else ("stop",)):
-                cfg = mkcfg(kind, plan, xf=(len(plan) == 1), unreg=unreg)
+                cfg = mkcfg(kind, plan, xf=(len(plan) != 2), unreg=unreg)
                 for seq in itertools.product(OPS[kind][1:], repeat=depth - 1):
                     yield cfg, [("start",)] + [(o,) for o in seq]
                 if kind == "fbp":      # calls before startProducing too
@@ -93,7 +96,7 @@ def run(ctx):
     traces, seen = [], set()
     depth = ctx.pick(5, 6)
     nex = 0
-    for cfg, ops in exhaustive_histories(depth):
+    for cfg, ops in exhaustive_histories(depth, not ctx.quick):
         t = _run(cfg, ops)
         nex += 1
         k = json.dumps([t["cfg"], t["ev"]], sort_keys=True)
@@ -104,7 +107,7 @@ def run(ctx):
     ctx.extra["exhaustive_histories_distinct"] = len(traces)
     ctx.extra["exhaustive_depth"] = depth
     # (b) seeded random longer histories
-    for _ in range(ctx.pick(2500, 40000)):
+    for _ in range(ctx.pick(1500, 40000)):
         cfg, ops = random_history(ctx.rng)
         t = _run(cfg, ops)
         k = json.dumps([t["cfg"], t["ev"]], sort_keys=True)
@@ -113,6 +116,26 @@ def run(ctx):
             traces.append(t)
     ctx.log("real executions: %d distinct (%d exhaustive-short histories run at depth %d)" % (len(traces), nex, depth))
     ctx.note_traces(traces)
+    # code-side vacuity guard: every modelled situation occurs among the recorded executions
+    sit = {}
+    for t in traces:
+        k = t["cfg"]["kind"]
+        for e in t["ev"]:
+            for tag in ([k + "/" + e["e"] + "/" + e["res"]] + [k + "/fired/" + f[0] for f in e["fired"]]
+                        + ([k + "/logged/%d" % e["logged"]] if e["logged"] else [])
+                        + ([k + "/lastbyte"] if any(f[0] == "ok" and f[1] > 0 for f in e["fired"]) else [])
+                        + ([k + "/shortwrite"] if e["w"] and t["cfg"]["plan"][e["w"][0] - 1:e["w"][0]] not in ([], [t["cfg"]["rs"]]) else [])):
+                sit[tag] = sit.get(tag, 0) + 1
+    ctx.extra["situations"] = dict(sorted(sit.items()))
+    need = ["fbp/fired/ok", "fbp/fired/IOError", "fbp/fired/ValueError", "fbp/fired/CancelledError", "fbp/pause/AttributeError",
+            "fbp/stop/AttributeError", "fbp/pause/TaskDone", "fbp/pause/TaskStopped", "fbp/pause/TaskFailed", "fbp/resume/NotPaused",
+            "fs/fired/ok", "fs/lastbyte", "fs/fired/Exception", "fs/logged/1", "fs/pause/TaskStopped", "fs/unreg/ok",
+            "fsd/fired/ok", "fsd/pull/IOError", "fsd/fired/Exception", "p2p/logged/1", "p2p/logged/2", "p2p/pause/TaskDone",
+            "p2p/pause/TaskStopped", "p2p/stop/ok", "fbp/shortwrite", "fs/shortwrite"]
+    missing = [n for n in need if not sit.get(n)]
+    if missing:
+        from harness.core import MachineryError
+        raise MachineryError("vacuity: situations never recorded: %s" % missing)
     rej = ctx.validate("ProducersTrace", traces, shard_size=4000)
     _report(ctx, traces, rej)
 
